@@ -1,7 +1,8 @@
 #!/usr/bin/env python3
 """Sanitized rebuild of /repo's current working tree (DESIGN.md section 9).
 
-The compile commands are taken from `make -n -B -C /repo/src libtpms.la` so that added/removed
+The compile commands are taken from `make -n -B -o Makefile ... -C /repo/src libtpms.la` (the -o options keep
+make from re-running configure in /repo, which plain -B would do) so that added/removed
 files and changed flags are followed.  gcc is swapped for clang-14 with ASan+UBSan; a handful of
 per-file -D redirects give the harness control of time, entropy, cancellation polls and longjmp.
 The result is cached under /verif/.cache/build-<hash of sources>/libtpms_san.a
@@ -50,7 +51,8 @@ def src_hash(repo=REPO):
 
 
 def compile_commands(repo=REPO):
-    out = subprocess.run(["make", "-n", "-B", "-C", os.path.join(repo, "src"), "libtpms.la"],
+    out = subprocess.run(["make", "-n", "-B", "-o", "Makefile", "-o", "../config.status", "-o", "../configure",
+                          "-o", "../config.h", "-o", "Makefile.in", "-C", os.path.join(repo, "src"), "libtpms.la"],
                          capture_output=True, text=True)
     cmds = []
     for line in out.stdout.splitlines():
